@@ -361,6 +361,18 @@ func Render(ctx context.Context, log logging.Logger, in Inputs) (Outputs, error)
 	if len(unready) > 0 {
 		xrCond = xpv1.Creating().WithMessage(fmt.Sprintf("Unready resources: %s", resource.StableNAndSomeMore(resource.DefaultFirstN, unready)))
 	}
+	// A Function can explicitly mark the desired XR ready or unready, which
+	// overrides the readiness derived from the composed resources - just as
+	// the XR controller does.
+	switch d.GetComposite().GetReady() {
+	case fnv1.Ready_READY_TRUE:
+		xrCond = xpv1.Available()
+	case fnv1.Ready_READY_FALSE:
+		if xrCond.Status != corev1.ConditionFalse {
+			xrCond = xpv1.Creating().WithMessage("Composite resource was explicitly marked as unready by the composer")
+		}
+	case fnv1.Ready_READY_UNSPECIFIED:
+	}
 	xrCond.LastTransitionTime = conditionTime()
 	xr.SetConditions(xrCond)
 
